@@ -1181,6 +1181,85 @@ pub fn replay_static(_case: &Value, run: &Run) -> Acc {
     acc
 }
 
+// ---------------------------------------------------------------------------------------------
+// part 2d: the first call of a fresh process against the same call late in a long-lived process
+
+fn cold_docs() -> Vec<Value> {
+    let mut v = hist_docs();
+    v.push(json!({"a": [{"a": 1, "b": 1}, {"a": "x", "b": 2}, [1, 2, [3]], "x"], "b": {"a": 1, "p": "x"}, "p": "x", "c": 1, "_b1": [0]}));
+    v
+}
+
+/// child: evaluate one query string on one document as the first thing this process does
+pub fn eval_fresh_child(q: &str, doc: usize) -> i32 {
+    let docs = cold_docs();
+    println!("{}", pv(q, &docs[doc.min(docs.len() - 1)]));
+    0
+}
+
+/// Every sentence of the generated query set is evaluated (through a string entry point) as the FIRST call of a
+/// fresh process and, in this long-lived process after everything the earlier parts did, again: both must agree.
+fn part_cold_vs_warm(thorough: bool) -> Result<Acc, String> {
+    let docs = cold_docs();
+    let mut qs: Vec<String> = sentences::sentences(thorough).iter().map(render::query).collect();
+    qs.extend(long_queries());
+    qs.extend(ESCAPED.iter().map(|s| s.to_string()));
+    let stride = if thorough { 2 } else { 1 };
+    let exe = std::env::current_exe().map_err(|e| e.to_string())?;
+    let res: Vec<Result<Acc, String>> = qs
+        .par_iter()
+        .enumerate()
+        .filter(|(i, _)| i % stride == 0)
+        .map(|(i, q)| {
+            let mut acc = Acc::new();
+            let d = i % docs.len();
+            let out = Command::new(&exe).args(["eval-fresh", q, &d.to_string()]).output().map_err(|e| e.to_string())?;
+            if !out.status.success() {
+                return Err(format!("eval-fresh child failed for {:?}: {:?}", q, out.status));
+            }
+            let cold = String::from_utf8_lossy(&out.stdout).trim().to_string();
+            let warm = pv(q, &docs[d]);
+            acc.evals += 1;
+            acc.transitions += 1;
+            if cold != warm {
+                acc.viol(
+                    format!("{} on {}: as the first call of a fresh process it returns {} but late in a long-lived process {}", q, docs[d], cold, warm),
+                    json!({"kind": "cold-warm", "class": "first call of a fresh process vs late call", "query": q, "doc": d}),
+                );
+            } else if cold.len() > 2 {
+                acc.nontrivial += 1;
+            }
+            Ok(acc)
+        })
+        .collect();
+    let mut acc = Acc::new();
+    for r in res {
+        acc = acc.merge(r?);
+    }
+    acc.states += 2;
+    Ok(acc)
+}
+
+pub fn replay_cold_warm(case: &Value, _run: &Run) -> Acc {
+    let mut acc = Acc::new();
+    let q = case["query"].as_str().unwrap_or("$");
+    let d = case["doc"].as_u64().unwrap_or(0) as usize;
+    let exe = std::env::current_exe().expect("exe");
+    let out = Command::new(&exe).args(["eval-fresh", q, &d.to_string()]).output().expect("child");
+    let cold = String::from_utf8_lossy(&out.stdout).trim().to_string();
+    // the "warm" side of a replay: after the history alphabet has been run once in this process
+    let ctx = HistCtx::new();
+    for op in ops() {
+        let _ = ctx.exec(op);
+    }
+    let warm = pv(q, &cold_docs()[d.min(cold_docs().len() - 1)]);
+    println!("query: {}\ncold : {}\nwarm : {}", q, cold, warm);
+    if cold != warm {
+        acc.viol(format!("{}: first call of a fresh process {} vs after a history {}", q, cold, warm), case.clone());
+    }
+    acc
+}
+
 pub fn run(tier: &str) -> i32 {
     let run = Run::new("C12", tier);
     let th = run.thorough();
@@ -1205,6 +1284,16 @@ pub fn run(tier: &str) -> i32 {
     eprintln!("  queries interleaved with in-place updates: {} evaluations over {} update sequences, {:.1}s", b2.evals, b2.states, t0.elapsed().as_secs_f64());
     let b = b.merge(b2);
     let t0 = std::time::Instant::now();
+    let b3 = match part_cold_vs_warm(th) {
+        Ok(x) => x,
+        Err(e) => {
+            eprintln!("MACHINERY: {}", e);
+            return 2;
+        }
+    };
+    eprintln!("  first call of a fresh process vs late call: {} queries, {:.1}s", b3.evals, t0.elapsed().as_secs_f64());
+    let b = b.merge(b3);
+    let t0 = std::time::Instant::now();
     let c = match part_schedules(th) {
         Ok(c) => c,
         Err(e) => {
@@ -1226,7 +1315,7 @@ pub fn run(tier: &str) -> i32 {
     }
     run.finish(
         acc,
-        "entry points: one case = (query string, document) through query, query_only_path, query_with_path, a query parsed once (twice, and cloned) with the document serialized before and after, plus every edge of a nodelist-transition BFS (names universe, small universe, panel) whose rendered query string must give through the string entry points what the query assembled from parsed segments gives; histories: every pair of operations of a 37-operation alphabet (32 evaluations + 5 queries the parser must reject) in its own fresh process and, in one process, every window of length w, each result compared with the same operation run first in a fresh process (states = operations, transitions = executed operations); update histories: every sequence of up to 2 (3) in-place writes through reference_mut on a live document, a panel of 12 queries evaluated before and after each write on the live document and on an equal freshly built one (differential); schedules: stateless depth-first exploration of every interleaving with at most k preemptions of 2-3 real threads sharing one parsed query and one document, scheduling points = the verif hooks at every evaluation step, each thread's results compared with the operations run alone (transitions = complete schedules, states = distinct observed outcomes); non-trivial = operations / schedules executed",
+        "entry points: one case = (query string, document) through query, query_only_path, query_with_path, a query parsed once (twice, and cloned) with the document serialized before and after, plus every edge of a nodelist-transition BFS (names universe, small universe, panel) whose rendered query string must give through the string entry points what the query assembled from parsed segments gives; histories: every pair of operations of a 58-operation alphabet (evaluations through the four entry points, 5 queries the parser must reject, escaped names of equal length, long queries with and without a filter) in its own fresh process and every window of length w (the windows that start with the same operation in one fresh process, in lexicographic order), each result compared with the same operation run first in a fresh process (states = operations, transitions = executed operations); update histories: every sequence of up to 2 (3) in-place writes through reference_mut on a live document, a panel of 12 queries evaluated before and after each write on the live document and on an equal freshly built one (differential); cold vs warm: every sentence of the generated set as the first call of a fresh process and again late in the long-lived checking process; schedules: stateless depth-first exploration of every interleaving with at most k preemptions of 2-3 real threads sharing one parsed query and one document, scheduling points = the verif hooks at every evaluation step, each thread's results compared with the operations run alone (transitions = complete schedules, states = distinct observed outcomes); non-trivial = operations / schedules executed",
         &[
             "scheduling points exist only at the hooks; safe Rust without interior mutability has no other place where threads can interact",
             "Send + Sync of JpQuery / JsonPathError / QueryRef is a type-check side condition (mc/static_assert)",
